@@ -31,6 +31,14 @@ CHECKS['C13'] = dict(
     note='Trusted: CrossHair+z3; SymStruct stand-in for struct (validated against struct each run); EqDict look-up stub; scripted transport. Outside: payloads longer than the bound; writer/reader interleavings unless the E3 condition is listed in evidence.',
     technique='symbolic execution (CrossHair/z3) of real framing code over symbolic header words and payload',
     design='3/C13')
+CHECKS['C16'] = dict(
+    category='other',
+    text='Bounded symbolic execution (CrossHair/z3) of the real FastbootProtocol/FastbootCommands against a scripted bootloader whose packets are fully symbolic strings (<=6 chars, <=3 packets): '
+         'the outcome, returned payload and forwarded INFO/OKAY/FAIL texts equal a specification automaton; every command is one "command[:arg]" packet; download announces the size, sends image bytes only after DATA with exactly that size, '
+         'in order, in chunks <= the configured size, with cumulative progress that survives raising callbacks, for image sizes around multiples of the chunk size.',
+    note='Trusted: CrossHair+z3, the specification automaton in props/C16.py, FakeUsb. Commands/args and image sizes are enumerated (formatting with %08x realises symbolic ints); DATA packets carry well-formed hex size fields; error message texts with symbolic device text are not checked (concrete texts are).',
+    technique='symbolic execution (CrossHair/z3) vs specification automaton over symbolic device responses',
+    design='3/C16')
 NA_REASON = {}
 DEFAULT_NA = 'check not built yet in this round (work in progress; see DESIGN.md section 6 for the plan)'
 
